@@ -14,6 +14,7 @@ from __future__ import annotations
 
 import itertools
 import socket
+import struct
 import threading
 import time
 
@@ -418,12 +419,25 @@ def _scenario_b(ctx, inj, idx, state):
                 sock.sendall(frame[:cut])
                 time.sleep(rng.choice([0.0, 0.01, 0.05]))
                 if kind in ("cut_then_peer_close", "cycles", "peer_closes_first_then_disable"):
+                    if rng.random() < 0.4:
+                        # abortive close: the peer resets the connection (RST) instead of closing it in an orderly way (FIN)
+                        sock.setsockopt(socket.SOL_SOCKET, socket.SO_LINGER, struct.pack("ii", 1, 0))
+                        wit["peer_close"] = "reset"
+                        ctx.count("partB.peer_resets_connection")
                     sock.close()
                     end = time.monotonic() + 5
                     while time.monotonic() < end and ep.state != NC:
                         time.sleep(0.001)
                     if ep.state != NC:
                         ths = [t for t in threading.enumerate() if t.name.startswith("secsgem_tcpConnection_receiver")]
+                        if not ths:
+                            # nobody is left who could run the close sequence: the receiver thread is gone without having run it
+                            time.sleep(2.0)
+                            if ep.state != NC and not [t for t in threading.enumerate() if t.name.startswith("secsgem_tcpConnection_receiver")]:
+                                ctx.violation("B:link-loss-not-handled:receiver-thread-ended-without-the-close-sequence",
+                                              {**wit, "state": ep.state, "connected": getattr(ep.conn, "connected", None)})
+                                state["abort"] = True
+                                return
                         fail("close-sequence-after-partial-frame", ths or [threading.current_thread()])
                         return
                 else:
